@@ -763,6 +763,13 @@ func (s *Server) runElection(id string, elecID *spb.Uint128) (*spb.ModifyRespons
 	}
 
 	if nm {
+		if s.curMaster != "" && s.curMaster != id {
+			// This is a failover to a different client. Per the gRIBI
+			// specification the server stops processing the pending
+			// AFTOperations of the previous primary, and must not send
+			// responses for them to the acquiring primary.
+			s.masterRIB.ClearPending()
+		}
 		s.curElecID = elecID
 		s.curMaster = id
 	}
